@@ -19,4 +19,5 @@ def open_file(path: Path, mode: str) -> ContextManager[ProcessExecutionFile]:
 
 @contextmanager
 def opened_file(f: TextIO) -> ContextManager[ProcessExecutionFile]:
+    f.flush()  # the process writes via the file descriptor: text written earlier must precede its output
     yield f
